@@ -1,6 +1,7 @@
 """C08 - tasking bookkeeping is exact and independent of the order parallel jobs finish."""
 from __future__ import annotations
 
+import contextlib
 import datetime as _dt
 import itertools
 import types
@@ -10,6 +11,7 @@ import z3
 
 from symx.core import SBool, SInt, SReal, assume, boolean, cur, explore, integer, mfloat, mval, real, reals, rv
 from symx.runner import Ob
+from symx.ext_c01 import closeness_shadows
 from symx.stubs import shadow
 
 ID = "C08"
@@ -146,11 +148,22 @@ class _Collect:
         return self.provider(self.sid, target_agent.simulation_id)
 
 
+PRIOR_BORESIGHT = (1.0, 0.0, 0.0)  # where every sensor of the engine-level obligations points before the step
+
+
 class FakeSensor:
+    """A sensing agent as far as the engine is concerned.  Its `sensors` is a bare instance of the real Optical class (no constructor run) that carries
+    the pointing state a real sensor has before the step; only collectObservations is replaced (its computation is C02's subject)."""
+
     def __init__(self, sid, collect=None):
+        from resonaate.sensors.optical import Optical
+
         self.simulation_id = sid
         self.measurement = None
-        self.sensors = types.SimpleNamespace(collectObservations=collect(sid) if collect else None)
+        self.sensors = object.__new__(Optical)
+        self.sensors.boresight = np.array(PRIOR_BORESIGHT)
+        self.sensors.time_last_tasked = 0.0
+        self.sensors.collectObservations = collect(sid) if collect else None
 
 
 class FakeEstimate:
@@ -411,7 +424,9 @@ def _run_assess(targets, sensors, policy, steps=1, via="assess"):
 
     with shadow(P, ray=rayst), shadow(CE, ray=rayst, handleRelevantEvents=lambda *a, **k: None, zeros=_zeros_vis), \
             shadow(TR, asyncCalculateReward=Remote(rayst, reward_fn, "reward")), shadow(TE, ray=rayst, asyncExecuteTasking=Remote(rayst, exec_fn, "exec")), \
-            _scenario_shadows(rayst):
+            _scenario_shadows(rayst), contextlib.ExitStack() as _st:
+        for _cm in closeness_shadows([TE]):  # numpy/math closeness functions, where the worker module binds any, are solver terms
+            _st.enter_context(_cm)
         _drive(sc, eng, steps, via, output_every, targets, sensors, collect, one_step)
     if sc is not None:
         log["batches"] = list(sc.database.batches)
@@ -450,8 +465,15 @@ def replay_assess(d):
     return _concrete_assess(d)
 
 
+_POINTING = {}  # pointing states the counterexample under replay prescribes (those the path condition mentions); set by _concrete_assess
+
+
 def _payload(st, tid, sid):
-    """The concrete pointing state job (step, target) reports for sensor sid in a replay: distinct per (step, target, sensor)."""
+    """The concrete pointing state job (step, target) reports for sensor sid in a replay: what the counterexample prescribes where the explored path
+    depends on it, otherwise distinct per (step, target, sensor)."""
+    p_ = _POINTING.get(f"{st}:{tid}_{sid}")
+    if p_ is not None:
+        return np.array(p_[0], dtype=float), float(p_[1])
     return np.array([float(tid), float(sid), 1.0 + st]), 10000.0 * (st + 1) + 100.0 * tid + sid
 
 
@@ -466,6 +488,8 @@ def _concrete_assess(d):
     import resonaate.parallel as P
 
     targets, sensors, policy = d["targets"], d["sensors"], d["policy"]
+    _POINTING.clear()
+    _POINTING.update(d.get("pointing", {}))
     steps, via = int(d.get("steps", 1)), d.get("via", "assess")
     output_every = int(d.get("output_every", 1))
     eng = _engine(targets, sensors, policy)
@@ -809,6 +833,19 @@ def o_assess(rep, nT, nS, policy, steps=1, via="assess"):
                     d["met"][f"{st}:{tid}"] = _metric_values(targets, tid, len(sensors), K)
                     for s in sensors:
                         d["observed"][f"{st}:{tid}_{s}"] = bool(mval(m, z3.Bool(f"observed{st}_{tid}_{s}")))
+            # pointing states the path condition mentions (a branch of the analysed code depended on them) are part of the counterexample
+            from symx.core import free_vars
+
+            used = set()
+            for c_ in r.constraints:
+                used |= {str(v_) for v_ in free_vars(c_)}
+            d["pointing"] = {}
+            for st in range(steps):
+                for tid in targets:
+                    for s in sensors:
+                        names = [f"bore{st}_{tid}_{s}_{i}" for i in range(3)]
+                        if any(n_ in used for n_ in names):
+                            d["pointing"][f"{st}:{tid}_{s}"] = ([mfloat(m, z3.Real(n_)) for n_ in names], mfloat(m, z3.Real(f"tlt{st}_{tid}_{s}")))
             return d
 
         what = "one record per tasked pair, saved lists exact, sensor state from own job, reward rows from own estimate, executors drained"
